@@ -46,46 +46,8 @@ def to_operands(t, names):
     return t
 
 
-def run(ctx):
+def rule_I_INDEX(ctx, ev, ctors):
     f = ctx.facts
-    ev, ctors = maps.rule_M_CTOR(ctx)
-    ctx.rule("M-DERIVED", "the four derived constructors evaluate symbolically to the desugared trees stated in the documentation: "
-             "instance(S,P)=Inheritance({S},P); property(S,P)=Inheritance(S,[P]); instance_property=Inheritance({S},[P]); "
-             "equivalence_retrospective(A,C)=EquivalencePredictive(C,A)")
-    for name, want in sorted(SPEC.items()):
-        if name not in ctors:
-            raise AnchorMissing("constructor %s" % name)
-        path, t, n = ctors[name]
-        got = to_operands(simplify(t), {"$0": 0, "$1": 1})
-        ctx.ob("M-DERIVED", name, got == want, "evaluates to %s, documentation says %s" % (tree_s(got), tree_s(want)))
-        ctx.sample({"rule": "M-DERIVED", "ctor": name, "tree": tree_s(got)})
-    # both pipelines route the derived keyword fields to these constructors with (subject, predicate) in source order
-    P_ = maps.ParserMaps(ctx, ev)
-    F_ = maps.FoldMaps(ctx, ev)
-    ctx.rule("M-DERIVED-ROUTE", "in the enum parser and in the fold, each derived copula keyword field leads to the desugared tree with "
-             "the operand written before the copula as subject and the one after it as predicate")
-    fparams = F_.params["fold_statement"]
-    fnames = {}
-    for i, n in enumerate(fparams):
-        if n == "subject": fnames["$%d" % i] = 0
-        if n == "predicate": fnames["$%d" % i] = 1
-    for fld, cname in sorted(FIELD_OF.items()):
-        want = SPEC[cname]
-        pt = P_.term.get(fld)
-        ft = F_.term.get(fld)
-        pg = to_operands(pt, {"subject": 0, "*": 1}) if pt else None
-        fg = to_operands(ft, fnames) if ft else None
-        ctx.ob("M-DERIVED-ROUTE", "enum parser %s" % fld, pg == want, "builds %s, expected %s" % (tree_s(pg) if pg else None, tree_s(want)))
-        ctx.ob("M-DERIVED-ROUTE", "fold %s" % fld, fg == want, "builds %s, expected %s" % (tree_s(fg) if fg else None, tree_s(want)))
-    # subject is parsed before the copula chain, predicate after the keyword skip (source order)
-    st = P_.statement_fn
-    lets = [s for s in st["body"]["stmts"] if s["k"] == "Let" and s["pat"]["k"] == "Binding"]
-    subj = [s for s in lets if s["pat"]["name"] == "subject"]
-    ok = len(subj) == 1 and hir.find_calls(subj[0]["init"], "parse_term")
-    chain = maps.find_chains(st, "starts_with", 2)
-    ok = ok and chain and subj[0]["line"] < chain[0]["line"]
-    ctx.ob("M-DERIVED-ROUTE", "parse_statement: subject parsed before the copula, predicate after it", bool(ok), "subject binding must precede the copula chain")
-
     # ---- I-INDEX ------------------------------------------------------------------
     ctx.rule("I-INDEX", "the image index is the position of the FIRST placeholder among the written components, the remaining "
              "components keep their order, and the value reaches the Image variant's index field without arithmetic")
@@ -210,6 +172,10 @@ def run(ctx):
         ok = t[0] == "ctor" and t[2][0] == ("param", 0)
         ctx.ob("I-INDEX", "%s stores its index parameter unchanged and range-tests it" % nm, ok and tested, "tree %s; tested=%s" % (tree_s(t), tested))
 
+
+
+def rule_N_INTERVAL(ctx, F_):
+    f = ctx.facts
     # ---- interval / placeholder -------------------------------------------------------
     ctx.rule("N-INTERVAL", "an interval atom denotes the decimal value of its name: set_atom_name on Interval and fold_atom's interval arm "
              "both use str::parse::<usize> (no radix, no signed parse); the placeholder arms ignore the name")
@@ -263,6 +229,50 @@ def run(ctx):
            "the placeholder return must follow the name-scanning loop, else `_x` leaves `x` in the input to be read as another term")
     ctx.ob("N-INTERVAL", "parse_atom applies the scanned name through set_atom_name", len(sets) == 1 and field_path(sets[0]["args"][0]) == ("name_buffer",), "")
 
+
+
+def run(ctx):
+    f = ctx.facts
+    ev, ctors = maps.rule_M_CTOR(ctx)
+    ctx.rule("M-DERIVED", "the four derived constructors evaluate symbolically to the desugared trees stated in the documentation: "
+             "instance(S,P)=Inheritance({S},P); property(S,P)=Inheritance(S,[P]); instance_property=Inheritance({S},[P]); "
+             "equivalence_retrospective(A,C)=EquivalencePredictive(C,A)")
+    for name, want in sorted(SPEC.items()):
+        if name not in ctors:
+            raise AnchorMissing("constructor %s" % name)
+        path, t, n = ctors[name]
+        got = to_operands(simplify(t), {"$0": 0, "$1": 1})
+        ctx.ob("M-DERIVED", name, got == want, "evaluates to %s, documentation says %s" % (tree_s(got), tree_s(want)))
+        ctx.sample({"rule": "M-DERIVED", "ctor": name, "tree": tree_s(got)})
+    # both pipelines route the derived keyword fields to these constructors with (subject, predicate) in source order
+    P_ = maps.ParserMaps(ctx, ev)
+    F_ = maps.FoldMaps(ctx, ev)
+    ctx.rule("M-DERIVED-ROUTE", "in the enum parser and in the fold, each derived copula keyword field leads to the desugared tree with "
+             "the operand written before the copula as subject and the one after it as predicate")
+    fparams = F_.params["fold_statement"]
+    fnames = {}
+    for i, n in enumerate(fparams):
+        if n == "subject": fnames["$%d" % i] = 0
+        if n == "predicate": fnames["$%d" % i] = 1
+    for fld, cname in sorted(FIELD_OF.items()):
+        want = SPEC[cname]
+        pt = P_.term.get(fld)
+        ft = F_.term.get(fld)
+        pg = to_operands(pt, {"subject": 0, "*": 1}) if pt else None
+        fg = to_operands(ft, fnames) if ft else None
+        ctx.ob("M-DERIVED-ROUTE", "enum parser %s" % fld, pg == want, "builds %s, expected %s" % (tree_s(pg) if pg else None, tree_s(want)))
+        ctx.ob("M-DERIVED-ROUTE", "fold %s" % fld, fg == want, "builds %s, expected %s" % (tree_s(fg) if fg else None, tree_s(want)))
+    # subject is parsed before the copula chain, predicate after the keyword skip (source order)
+    st = P_.statement_fn
+    lets = [s for s in st["body"]["stmts"] if s["k"] == "Let" and s["pat"]["k"] == "Binding"]
+    subj = [s for s in lets if s["pat"]["name"] == "subject"]
+    ok = len(subj) == 1 and hir.find_calls(subj[0]["init"], "parse_term")
+    chain = maps.find_chains(st, "starts_with", 2)
+    ok = ok and chain and subj[0]["line"] < chain[0]["line"]
+    ctx.ob("M-DERIVED-ROUTE", "parse_statement: subject parsed before the copula, predicate after it", bool(ok), "subject binding must precede the copula chain")
+
+    rule_I_INDEX(ctx, ev, ctors)
+    rule_N_INTERVAL(ctx, F_)
     # the sugar equations quantify over all operand terms: a derived copula must still be the copula that is read when the subject's
     # name touches it (`<S --] P>` written with the property copula must not be read with another copula)
     import tables
